@@ -402,6 +402,50 @@ struct TokenSpace {
       return {};
    }
 };
+/// every numeric token of every data line x 10 moderate factors x force_output on/off (documents stay well-formed)
+struct ScaleSpace {
+   struct Tok { size_t ord, field; };
+   struct Seg { size_t file; std::vector<Tok> toks; size_t n = 0; };
+   std::vector<Seg> segs; size_t total = 0;
+   void build(bool quick)
+   {
+      for (size_t f = 0; f < g_corpus.files.size(); ++f) {
+         const auto& cf = g_corpus.files[f];
+         if (quick && cf.rel.find("/input/example.") == std::string::npos) continue;
+         Seg s; s.file = f;
+         size_t ord = 0;
+         for (size_t b : line_starts(cf.bytes)) {
+            auto tk = tokens_of(cf.bytes, b, line_end(cf.bytes, b));
+            if (tk.empty()) continue;
+            const std::string first = cf.bytes.substr(tk[0].first, tk[0].second - tk[0].first);
+            if (!(ieq(first, "block") || ieq(first, "decay")))
+               for (size_t k = 1; k < tk.size(); ++k) { // values, not the first index
+                  const std::string t = cf.bytes.substr(tk[k].first, tk[k].second - tk[k].first);
+                  char* e = nullptr; std::strtod(t.c_str(), &e);
+                  if (!t.empty() && *e == 0) s.toks.push_back({ord, k});
+               }
+            ++ord;
+         }
+         s.n = s.toks.size() * N_SCALE * 2;
+         total += s.n; segs.push_back(s);
+      }
+   }
+   std::vector<std::string> plan(size_t idx) const
+   {
+      for (auto& s : segs) {
+         if (idx < s.n) {
+            const size_t force = idx & 1, kind = (idx >> 1) % N_SCALE, tk = (idx >> 1) / N_SCALE;
+            std::vector<std::string> p = {"base corpus " + g_corpus.files[s.file].rel, "scale " + std::to_string(s.toks[tk].ord) + " " + std::to_string(s.toks[tk].field) + " " + std::to_string(kind)};
+            if (force) p.push_back("cfgkey 3 1");
+            return p;
+         }
+         idx -= s.n;
+      }
+      return {};
+   }
+};
+ScaleSpace g_scale, g_scaleq;
+
 /// every valid GM2CalcConfig combination (5 formats x 3 loop orders x 2^5 switches = 480) appended to a shipped file
 struct ConfigSpace {
    std::vector<size_t> files; size_t total = 0;
@@ -518,6 +562,8 @@ std::vector<std::string> plan_of(const std::string& kind, uint64_t seed, uint64_
    if (kind == "CONFIG") return g_config.plan(idx);
    if (kind == "CONFIGQ") return g_configq.plan(idx);
    if (kind == "ARGLEN") return g_arglen.plan(idx);
+   if (kind == "SCALE") return g_scale.plan(idx);
+   if (kind == "SCALEQ") return g_scaleq.plan(idx);
    if (kind == "BOUNDARY") return g_boundary.plan(idx);
    if (kind == "EDGE") return g_boundary.plan(g_boundary.first_edge() + idx);
    if (kind == "CORPUS") { if (idx < 2 * g_corpus.files.size()) return {"base corpus " + g_corpus.files[idx / 2].rel, std::string("src ") + ((idx & 1) ? "path" : "stdin")}; }
@@ -535,7 +581,7 @@ int main(int argc, char** argv)
    g_fsdir = argv[3];
    mkdir(g_fsdir.c_str(), 0755);
    if (g_corpus.files.empty()) { std::printf("NOTE empty corpus\n"); }
-   g_prefix.build(false); g_prefixq.build(true); g_token.build(false); g_tokenq.build(true); g_config.build(false); g_configq.build(true); g_arglen.build(); g_boundary.build();
+   g_prefix.build(false); g_prefixq.build(true); g_token.build(false); g_tokenq.build(true); g_config.build(false); g_configq.build(true); g_arglen.build(); g_boundary.build(); g_scale.build(false); g_scaleq.build(true);
 
    // calibrate the logical step budget on the intact corpus of the current tree
    // (in a forked child: the worker itself must not have executed the program before its first run, so that a plan
@@ -570,7 +616,7 @@ int main(int argc, char** argv)
    while (sim::read_line(line)) {
       const auto t = sim::split(line);
       if (t.empty()) continue;
-      if (t[0] == "RUNS" || t[0] == "LIGHT" || t[0] == "PREFIX" || t[0] == "PREFIXQ" || t[0] == "TOKEN" || t[0] == "TOKENQ" || t[0] == "CONFIG" || t[0] == "CONFIGQ" || t[0] == "ARGLEN" || t[0] == "BOUNDARY" || t[0] == "CORPUS") {
+      if (t[0] == "RUNS" || t[0] == "LIGHT" || t[0] == "PREFIX" || t[0] == "PREFIXQ" || t[0] == "TOKEN" || t[0] == "TOKENQ" || t[0] == "CONFIG" || t[0] == "CONFIGQ" || t[0] == "ARGLEN" || t[0] == "BOUNDARY" || t[0] == "SCALE" || t[0] == "SCALEQ" || t[0] == "CORPUS") {
          const bool rnd = t[0] == "RUNS" || t[0] == "LIGHT";
          if (t.size() < (rnd ? 4u : 3u)) { std::printf("NOTE malformed command: %s\nDONE\n", line.c_str()); continue; }
          const uint64_t seed = rnd ? std::strtoull(t[1].c_str(), nullptr, 0) : 0;
@@ -594,7 +640,7 @@ int main(int argc, char** argv)
          g_hash_all = t.size() > 1 && t[1] != "0";
          std::printf("DONE\n");
       } else if (t[0] == "COUNT") {
-         std::printf("COUNT CONFIG %zu\nCOUNT CONFIGQ %zu\nCOUNT ARGLEN %zu\nCOUNT BOUNDARY %zu\nCOUNT EDGE %zu\n", g_config.total, g_configq.total, g_arglen.total, g_boundary.total, g_boundary.edge.size());
+         std::printf("COUNT CONFIG %zu\nCOUNT CONFIGQ %zu\nCOUNT ARGLEN %zu\nCOUNT BOUNDARY %zu\nCOUNT EDGE %zu\nCOUNT SCALE %zu\nCOUNT SCALEQ %zu\n", g_config.total, g_configq.total, g_arglen.total, g_boundary.total, g_boundary.edge.size(), g_scale.total, g_scaleq.total);
          std::printf("COUNT PREFIX %zu\nCOUNT PREFIXQ %zu\nCOUNT TOKEN %zu\nCOUNT TOKENQ %zu\nCOUNT CORPUS %zu\nBUDGET %" PRIu64 " %" PRIu64 "\nDONE\n",
                      g_prefix.total, g_prefixq.total, g_token.total, g_tokenq.total, 2 * g_corpus.files.size(), g_budget, max_steps);
       } else if (t[0] == "DUMP" && t.size() >= 4) {
